@@ -218,7 +218,7 @@ Proof.
           rewrite <- (firstn_skipn i es1) in F. apply Forall_app in F. destruct F as [F1 F2].
           apply Forall_app. split; [exact F1|]. constructor; [discriminate|exact F2]. }
         split.
-        { pose proof (cookies_nil _ Hc) as Hn. unfold cookies in *. rewrite (filter_insert_in _ _ _ _ eq_refl Hn).
+        { pose proof (cookies_nil _ Hc) as Hn. unfold cookies in *. rewrite (filter_insert_in is_cookie i (HCookie cookie) es1 eq_refl Hn).
           fold (cookies es1) in Hn. unfold es1 in Hn. rewrite cookies_set_ks in Hn. unfold cookies in Hn. rewrite Hn. reflexivity. }
         split; [intros d _; apply last_insert; exact Hlt|].
         rewrite pads_insert. apply pads_set_ks.
